@@ -39,3 +39,36 @@ def membership_sites(prog, pv, pv_local=None):
                     out.append({"body": b, "term": t, "root": sorted(roots[i])[0], "inclusive": "id" in tf, "fields": sorted(tf & {"all_parents", "parents", "id", "children"})})
                     break
     return out
+
+
+def path_reduction_key(ck, rule, prog, pv, reds):
+    """HpoTerm::path_to_ancestor (C11, C14): the candidates are whole paths (Vec<HpoTermId>), so the reduction must compare their
+    LENGTHS.  A plain min()/max() on paths compares them lexicographically id by id (seeded C14r2)."""
+    # the candidates are whole paths (Vec<HpoTermId>): the reduction must compare their LENGTHS.  A plain min()/max() on paths
+    # compares them lexicographically id by id (seeded C14r2).
+    for fb, bi, t in reds:
+        m = t.callee.method
+        if m in ("min", "max"):
+            dty = fb.locals[t.dest.local]["s"] if t.dest is not None else ""
+            if "Vec<" in dty:
+                ck.ob(rule, "path_to_ancestor/key", False, "path_to_ancestor reduces whole paths with plain %s(): paths are compared lexicographically id by id, not by length, so a longer chain through a smaller id wins" % m, where=fb.where(t.line))
+            else:
+                ck.ob(rule, "path_to_ancestor/key", True, "path_to_ancestor reduces scalars with %s()" % m, where=fb.where(t.line))
+        elif m == "min_by_key":
+            ok = any(a.kind == "const" and re.search(r"::len$", a.const.get("fn") or "") for a in t.args[1:])
+            if not ok and len(t.args) > 1:
+                cb = prog.bodies.get(pv.closure_of_operand(fb, t.args[1]))
+                if cb is not None:
+                    ok = any(ct.callee.method == "len" for _, ct in cb.calls()) or any(st.k == "assign" and st.rv["k"] in ("len", "ptrmeta") for _, st in cb.stmts())
+            ck.ob(rule, "path_to_ancestor/key", ok, "path_to_ancestor picks the path with the smallest %s" % ("length" if ok else "key that is NOT its length"), where=fb.where(t.line))
+        else:
+            ck.undecided(rule, "path_to_ancestor/key", "reduction %s not recognised" % m, where=fb.where(t.line))
+
+
+def reductions(prog, fam):
+    out = []
+    for fb in fam:
+        for bi, t in fb.calls():
+            if t.callee.trait == "std::iter::Iterator" and t.callee.method in ("min", "max", "min_by_key", "max_by_key", "min_by", "max_by"):
+                out.append((fb, bi, t))
+    return out
